@@ -236,7 +236,20 @@ func (sc *c14Scenario) Run(s *simrt.Sim) {
 			callersDone++
 			return 900000 + ci*10 + last%10
 		}
-		if c.Kind == "cor" {
+		if c.Kind == "cor" && ci%3 == 1 {
+			// method-style constructor that also starts the coroutine
+			var self *fpgo.CorDef[int]
+			ready := false
+			ths = append(ths, s.Go(name+"-starter", func() {
+				self = (&fpgo.CorDef[int]{}).NewAndStart(func() {
+					for !ready {
+						s.Sleep(time.Microsecond)
+					}
+					body(self)
+				})
+				ready = true
+			}))
+		} else if c.Kind == "cor" {
 			var self *fpgo.CorDef[int]
 			self = fpgo.CorNewGenerics[int](func() { body(self) })
 			ths = append(ths, s.Go(name+"-starter", func() { self.Start() }))
@@ -290,6 +303,20 @@ func (sc *c14Scenario) Run(s *simrt.Sim) {
 	s.SetFair(true)
 	if !s.WaitUntilTimeout(func() bool { return target.IsDone() }, time.Minute) {
 		sc.extra = append(sc.extra, Violation{Clause: "lifecycle", Fingerprint: "IsDone-after-return", Detail: "IsDone() still false long after the effect returned"})
+	}
+	// the method-style constructor of the utility instance (interface{} element type): one exchange
+	{
+		var tg, cl *fpgo.CorDef[interface{}]
+		var gotX, gotY interface{}
+		tg = fpgo.Cor.New(func() { gotX = tg.YieldRef("y1") })
+		cl = fpgo.Cor.New(func() { gotY = cl.YieldFrom(tg, "x1") })
+		s.Go("smoke-target", func() { tg.Start() })
+		s.Go("smoke-caller", func() { cl.Start() })
+		if !s.WaitUntilTimeout(func() bool { return tg.IsDone() && cl.IsDone() }, 10*time.Minute) {
+			sc.extra = append(sc.extra, Violation{Clause: "api-smoke", Fingerprint: "Cor.New-exchange-hangs", Detail: "Cor.New(): a single YieldFrom/YieldRef exchange between two coroutines did not finish"})
+		} else if gotX != "x1" || gotY != "y1" {
+			sc.extra = append(sc.extra, Violation{Clause: "api-smoke", Fingerprint: "Cor.New-exchange", Detail: fmt.Sprintf("Cor.New(): YieldRef got %v (want x1), YieldFrom got %v (want y1)", gotX, gotY)})
+		}
 	}
 }
 
